@@ -234,3 +234,126 @@ Proof. intros I K Pe H. unfold step in H. pose proof (step_raw_inv s e I) as I1.
   - left. exists o1. split; auto. split; congruence.
   - right. left. rewrite Q. auto.
   - right. right. congruence. Qed.
+
+(* ---------- the facts the monitor remembers per cid ---------- *)
+Definition dmobs (s : st) : list (N * N) := map (fun e => (fst e, mode_code (snd e))) (ipfs s).
+Definition infobs (s : st) : list (N * N * N * N) := map (call_obs s) (calls s).
+(* last instruction Untrack, daemon not touched behind the tracker since: once no operation is tracked the cid is unpinned *)
+Definition Uc (s : st) (c : N) : Prop :=
+  aget c (last s) = Some IUntrack /\ (aget c (table s) = None -> aget c (ipfs s) = None).
+(* a pin moved to other peers whose local unpin succeeded *)
+Definition Rc (s : st) (c : N) : Prop :=
+  aget c (table s) = None /\ aget c (ipfs s) = None /\ exists p, aget c (last s) = Some (ITrack p) /\ premote p = true.
+
+Lemma recover_list_ipfs l : forall s, ipfs (fst (recover_list s l)) = ipfs s.
+Proof. induction l as [|[c x] r IH]; intros s; [reflexivity|]. cbn [recover_list].
+  destruct (recover_with_fields s c x) as (A & _). destruct (recover_with s c x) as [s' [|]]; cbn [fst] in *; [rewrite IH|]; exact A. Qed.
+
+Lemma kind_type_inj a b : kind_type a = kind_type b -> a = b.
+Proof. destruct a, b; cbn; congruence. Qed.
+
+Lemma lab_untrack s c : LInv false s -> aget c (last s) = Some IUntrack ->
+  aget c (pinset s) = None /\ forall o, aget c (table s) = Some o -> otyp o = OUnpin.
+Proof. intros L H. pose proof (li_lab _ _ L c) as Lc. unfold lab, ty in Lc. rewrite H in Lc. destruct Lc as [A B]. split; auto.
+  intros o Ho. rewrite Ho in B. cbn in B. destruct B as [B|[B _]]; congruence. Qed.
+Lemma lab_track s c p : LInv false s -> aget c (last s) = Some (ITrack p) -> aget c (pinset s) = Some p.
+Proof. intros L H. pose proof (li_lab _ _ L c) as Lc. unfold lab in Lc. rewrite H in Lc. apply Lc. Qed.
+
+Lemma Uc_frame s s' c : opframe s s' c -> aget c (last s') = aget c (last s) -> aget c (ipfs s') = aget c (ipfs s) -> Uc s c -> Uc s' c.
+Proof. unfold Uc, opframe. intros F Hl Hi [A B]. rewrite Hl, Hi. split; auto. intros Hn. apply B. rewrite Hn in F.
+  destruct (aget c (table s)); [contradiction|reflexivity]. Qed.
+Lemma Rc_frame s s' c : opframe s s' c -> aget c (last s') = aget c (last s) -> aget c (ipfs s') = aget c (ipfs s) -> Rc s c -> Rc s' c.
+Proof. unfold Rc, opframe. intros F Hl Hi (A & B & C). rewrite Hl, Hi. split; [|auto]. rewrite A in F.
+  destruct (aget c (table s')); [contradiction|reflexivity]. Qed.
+
+Lemma Uc_dispatch s c : Inv s -> Uc s c -> Uc (dispatch s) c.
+Proof. intros I U. apply (Uc_frame s); auto; [now apply dispatch_frame | now rewrite dispatch_last | now rewrite dispatch_ipfs]. Qed.
+Lemma Rc_dispatch s c : Inv s -> Rc s c -> Rc (dispatch s) c.
+Proof. intros I U. apply (Rc_frame s); auto; [now apply dispatch_frame | now rewrite dispatch_last | now rewrite dispatch_ipfs]. Qed.
+
+(* the two facts survive every event that does not re-instruct the cid or touch its daemon entry *)
+Definition resets (e : event) (c : N) : Prop :=
+  match e with ETrack p => pcid p = c | EUntrack c' => c' = c | EDaemon c' _ => c' = c | _ => False end.
+
+Lemma Uc_step s e c : Inv s -> LInv false s -> Uc s c -> ~ resets e c -> Uc (fst (step s e)) c.
+Proof. intros I L U Hr. unfold step. pose proof (step_raw_inv s e I) as I1. destruct (step_raw s e) as [s1 r] eqn:E. cbn [fst] in *.
+  apply Uc_dispatch; auto. assert (Es : s1 = fst (step_raw s e)) by now rewrite E. rewrite Es. clear E Es I1.
+  pose proof U as [A B]. destruct e as [p|c0|c0|ord|c0 f|c0 m]; cbn [step_raw fst resets] in *.
+  - destruct (track_effect s p I) as (_ & Hl & Hi & Fo & _).
+    apply (Uc_frame s); [apply Fo; intros H; apply Hr; auto | rewrite Hl; apply aget_aput_other; intros H; apply Hr; auto | now rewrite Hi | exact U].
+  - destruct (untrack_effect s c0 I) as (_ & Hl & Hi & Fo & _).
+    apply (Uc_frame s); [apply Fo; intros H; apply Hr; auto | rewrite Hl; apply aget_aput_other; intros H; apply Hr; auto | now rewrite Hi | exact U].
+  - destruct (recover_with_fields s c0 (status_of s c0)) as (Hi & _ & Hl). unfold recover, Uc. rewrite Hl, Hi. split; auto. intros Hn. apply B.
+    destruct (aget c (table s)) eqn:G; auto. exfalso. apply (recover_with_persist s c0 (status_of s c0) c I); congruence.
+  - destruct (recover_list_fields (order_by ord (status_all s 0)) s) as (_ & Hl). unfold recover_all, Uc. rewrite Hl, recover_list_ipfs. split; auto.
+    intros Hn. apply B. destruct (aget c (table s)) eqn:G; auto. exfalso. apply (recover_list_persist (order_by ord (status_all s 0)) s c I); congruence.
+  - destruct (complete_effect s c0 f I) as (_ & Hl & Fo & Fc). destruct (N.eq_dec c c0) as [->|Hn].
+    + destruct Fc as [[Es _]|(cl & o & _ & _ & Ho & _ & _ & Hty & Hip & Hres)]; [rewrite Es; split; auto|].
+      destruct (lab_untrack s c0 L A) as [_ Hu']. rewrite (Hu' o Ho) in Hty.
+      assert (Hk : ckd cl = KUnpin) by (apply kind_type_inj; now rewrite <- Hty). unfold Uc. rewrite Hl. split; auto.
+      unfold call_outcome in *. rewrite Hk in *. destruct f; cbn [fst snd] in *.
+      * destruct Hres as (o' & Ho' & _). congruence.
+      * intros _. rewrite Hip. apply aget_adel_same.
+    + destruct (Fo c Hn) as [F Hi]. apply (Uc_frame s); auto. now rewrite Hl.
+  - unfold Uc. cbn [last table ipfs set_ipfs]. split; auto. intros Hn. specialize (B Hn).
+    destruct m; [rewrite aget_aput_other | rewrite aget_adel_other]; auto. Qed.
+
+Lemma Uc_untrack s c : Inv s -> Uc (fst (step s (EUntrack c))) c.
+Proof. intros I. unfold step. pose proof (step_raw_inv s (EUntrack c) I) as I1. cbn [step_raw] in *. destruct (untrack s c) as [s1 r] eqn:E. cbn [fst] in *.
+  apply Uc_dispatch; auto. assert (Es : s1 = fst (untrack s c)) by now rewrite E. rewrite Es.
+  destruct (untrack_effect s c I) as (_ & Hl & _ & _ & Ht). unfold Uc. rewrite Hl, aget_aput_same. split; auto.
+  intros Hn. unfold ty in Ht. rewrite Hn in Ht. discriminate. Qed.
+
+Lemma recover_list_none l : forall s c, Inv s -> (forall c p, aget c (pinset s) = Some p -> pcid p = c) ->
+  (forall x, In (c, x) l -> act x = None) -> aget c (table s) = None -> aget c (table (fst (recover_list s l))) = None.
+Proof. induction l as [|[c0 x] r IH]; intros s c I K Hx Hn; [exact Hn|]. cbn [recover_list].
+  pose proof (recover_with_inv s c0 x I) as I1. destruct (recover_with_fields s c0 x) as (_ & Hp & _).
+  assert (Hn1 : aget c (table (fst (recover_with s c0 x))) = None).
+  { destruct (N.eq_dec c c0) as [->|Hne].
+    - rewrite (recover_with_noop s c0 x); auto. apply Hx. now left.
+    - pose proof (recover_with_frame s c0 x c I (K c0) Hne) as F. unfold opframe in F. rewrite Hn in F.
+      destruct (aget c (table (fst (recover_with s c0 x)))); [contradiction|reflexivity]. }
+  destruct (recover_with s c0 x) as [s1 [|]]; cbn [fst] in *; auto.
+  apply IH; auto; [now rewrite Hp | intros y Hy; apply Hx; now right]. Qed.
+
+Lemma Rc_status s c : LInv false s -> Rc s c -> act (status_of s c) = None /\ forall x, entry_of s c = Some x -> act x = None.
+Proof. intros L (A & _ & p & Hl & Hr). pose proof (lab_track s c p L Hl) as Hp. unfold status_of, entry_of. rewrite A, Hp, Hr.
+  split; [destruct (pmeta p); reflexivity|]. intros x H. injection H as <-. destruct (pmeta p); reflexivity. Qed.
+
+Lemma Rc_step s e c : Inv s -> LInv false s -> Rc s c -> ~ resets e c -> Rc (fst (step s e)) c.
+Proof. intros I L R Hr. unfold step. pose proof (step_raw_inv s e I) as I1. destruct (step_raw s e) as [s1 r] eqn:E. cbn [fst] in *.
+  apply Rc_dispatch; auto. assert (Es : s1 = fst (step_raw s e)) by now rewrite E. rewrite Es. clear E Es I1.
+  destruct (Rc_status s c L R) as [St Se]. pose proof R as (A & B & p & Hlast & Hrem).
+  destruct e as [p0|c0|c0|ord|c0 f|c0 m]; cbn [step_raw fst resets] in *.
+  - destruct (track_effect s p0 I) as (_ & Hl & Hi & Fo & _).
+    apply (Rc_frame s); [apply Fo; intros H; apply Hr; auto | rewrite Hl; apply aget_aput_other; intros H; apply Hr; auto | now rewrite Hi | exact R].
+  - destruct (untrack_effect s c0 I) as (_ & Hl & Hi & Fo & _).
+    apply (Rc_frame s); [apply Fo; intros H; apply Hr; auto | rewrite Hl; apply aget_aput_other; intros H; apply Hr; auto | now rewrite Hi | exact R].
+  - destruct (recover_with_fields s c0 (status_of s c0)) as (Hi & _ & Hl). unfold recover. destruct (N.eq_dec c c0) as [->|Hn].
+    + now rewrite (recover_with_noop s c0 _ St).
+    + apply (Rc_frame s); auto; [|now rewrite Hl|now rewrite Hi]. apply recover_with_frame; auto. apply (li_keyed _ _ L).
+  - destruct (recover_list_fields (order_by ord (status_all s 0)) s) as (_ & Hl). unfold recover_all, Rc. rewrite Hl, recover_list_ipfs.
+    split; [|split; eauto]. apply recover_list_none; auto; [apply (li_keyed _ _ L)|].
+    intros x Hx. apply Se. apply status_all0_in; [apply I | apply L|].
+    apply (order_by_in ord (status_all s 0) (c, x)); auto. apply status_all0_nodup; [apply I | apply L].
+  - destruct (complete_effect s c0 f I) as (_ & Hl & Fo & Fc). destruct (N.eq_dec c c0) as [->|Hn].
+    + destruct Fc as [[Es _]|(cl & o & _ & _ & Ho & _)]; [now rewrite Es | congruence].
+    + destruct (Fo c Hn) as [F Hi]. apply (Rc_frame s); auto. now rewrite Hl.
+  - unfold Rc. cbn [last table ipfs set_ipfs]. split; auto. split; [|eauto].
+    destruct m; [rewrite aget_aput_other | rewrite aget_adel_other]; auto. Qed.
+
+(* the local unpin of a moved pin returned success *)
+Lemma Rc_new s c p d t : Inv s -> LInv false s -> aget c (last s) = Some (ITrack p) -> premote p = true ->
+  In (c, 1, d, t) (infobs s) -> Rc (fst (step s (EComplete c false))) c.
+Proof. intros I L Hl Hrem Hin. unfold step. pose proof (step_raw_inv s (EComplete c false) I) as I1. cbn [step_raw fst] in *.
+  apply Rc_dispatch; auto. unfold infobs in Hin. apply in_map_iff in Hin. destruct Hin as [cl [Eq Hcl]].
+  destruct (inv_calls _ I _ Hcl) as (o & Ho & Hid & Hph & Hty).
+  assert (Hc : ccid cl = c /\ ckd cl <> KPin).
+  { unfold call_obs in Eq. destruct (ckd cl); [|injection Eq as ->; split; [reflexivity|discriminate]..].
+    rewrite Ho in Eq. injection Eq as _ X. discriminate. }
+  destruct Hc as [Hc Hk]. subst c.
+  destruct (complete_effect s (ccid cl) false I) as (_ & Hla & _ & Fc).
+  destruct Fc as [[_ Hno]|(cl' & o' & _ & Hc' & Ho' & _ & _ & Hty' & Hip & Hres)]; [exfalso; eapply Hno; eauto|].
+  rewrite Ho in Ho'. injection Ho' as <-. assert (Hk' : ckd cl' = ckd cl) by (apply kind_type_inj; congruence).
+  unfold call_outcome in *. rewrite Hk' in *. unfold Rc. rewrite Hla, Hip.
+  destruct (ckd cl); [congruence| |]; cbn [fst snd] in *; (split; [exact Hres|]); (split; [apply aget_adel_same | eauto]). Qed.
